@@ -11,12 +11,18 @@ def run(ctx: Ctx) -> None:
     c = evo.loop_explore(ctx, names, {"C02"}, bound=1 if ctx.quick else 2, cap=1500 if ctx.quick else 40000)
     ctx.log(f"loop: { {k: v for k, v in c.items() if k != 'choice_points_default'} }")
     d = direct(ctx)
+    # operator closure through the acceptance gate: every tree reachable by mutate / crossover / repair (all resolutions,
+    # depth 2-3) is offered to a fresh evaluator; whatever it accepts as a solution is judged
+    b = evo.closure_explore(ctx, names, {"C02"}, depth=2 if ctx.quick else 3, frontier_cap=10 if ctx.quick else 24, run_cap=80 if ctx.quick else 300)
+    ctx.log(f"closure: {b}")
     ctx.coverage.update(
-        states=c["executions"] + d["states"], transitions=c["executions"] + c["emitted"] + d["transitions"],
-        traces_validated_against_impl=c["emitted"] + d["transitions"],
+        operator_closure=b,
+        states=c["executions"] + d["states"] + b["trees"], transitions=c["executions"] + c["emitted"] + d["transitions"] + b["executions"],
+        traces_validated_against_impl=c["emitted"] + d["transitions"] + b["executions"],
         samples=[{"engine": "loop", "spec": "computed_rep", "policy": "rot", "prefix": []}] + d["samples"], exhaustive=False, loop=c, direct=d["summary"],
         rule="state = one execution of Fandango.fuzz within the deviation bound; every tree handed to solution_callback / returned is rebuilt from a plain snapshot and judged by RefConstraint "
-             "and by recounting computed repetitions; plus: every enumerated tree x constraint pair is run through Evaluator.evaluate_individual and whatever it yields is judged",
+             "and by recounting computed repetitions; plus: every enumerated tree x constraint pair is run through Evaluator.evaluate_individual and whatever it yields is judged; "
+             "plus: every tree reachable through the search operators (depth 2, thorough 3) is offered to a fresh evaluator and whatever it accepts is judged",
     )
     ctx.cap(f"deviation bound {1 if ctx.quick else 2} around two base executions; {c['capped']} prefixes not run; {c['horizon']} executions hit the decision horizon")
 
